@@ -3,6 +3,12 @@
 import json
 PROPS = [json.loads(l) for l in open('/verif/properties.jsonl')]
 CLAIMED = {
+ "C16": dict(
+    category="proof",
+    text="Coq theorems (squared domain): C16_sum_mean proves that the code's pairwise iteration seeded with the first block member equals the root-sum-square of the contributing members (divided by their number for means) for blocks of any length, any mask pattern incl. a masked first member, NaNs anywhere; C16_prod proves by an invariant (s2 = P^2 sum (s_k/x_k)^2, a = P) that the multiply-rule iteration gives the relative-error combination for unmasked products; C16_flat (shared with C08) describes what a propagation function receives. Tied to /repo by exact rational comparison of every output variance (StdDev / Variance), the no-uncertainty decision table with warnings, a spy propagation function, a source-not-altered check and a closed-form oracle. Masked products are a recorded known finding (outside the theorem guard).",
+    design_ref="DESIGN.md §5.16",
+    note="Trusted: Coq kernel + VM; Model/M_RebinUnc.v transcription; astropy's add / multiply propagation rules (correlation 0) are dependency recurrences validated by the same run; block membership comes from M_Rebin (C08). The clause about NaN data when operation_ignores_mask=True is treated as unspecified and not generated. Known finding prod-masked (pinned test enshrines the wrong value).",
+    technique="Coq proof (fold invariants, field over Q) over hand-written Gallina model + vm_compute correspondence check"),
  "C15": dict(
     category="proof",
     text="Coq theorem C15_chain proves by induction over the wrapper chain (any depth, any order of slices with ints / ranges and resamples with any non-zero factors and any offsets, ANY PC matrix) that the FITS WCS produced by the transcription of unwrap_wcs_to_fitswcs / _slice_fitswcs / _resample_fitswcs has, at every pixel of the wrapped grid (0 on dropped placeholder axes), the same intermediate world coordinates as the chain; C15_resample_step / C15_slice_step are the per-wrapper laws; C15_old_crpix_rule_iff shows the pinned rule was right iff 2o = f-1. Tied to /repo by exact comparison of the returned CRPIX/CDELT/PC/NAXIS/dropped axes (chain read back from the wrapper objects), a full-grid + off-grid world-value oracle (incl. TAN / rotated celestial bases), a no-mutation check of the base WCS and refusal of non-FITS bases.",
